@@ -276,7 +276,7 @@ def decl_graph(c):
     if c["entry"] == "single":
         fs = fs[:1]
     vs = sorted({v for f in fs for v in f})
-    gf = [sorted(set(f)) for f in fs] + ([[v] for v in vs] if include else [])
+    gf = [sorted(set(f)) for f in fs] + ([[v] for v in reversed(vs)] if include else [])
     return fs, gf, include
 
 
@@ -483,36 +483,52 @@ def eff_delta(step, state):
     return lambda v: unhex(d["d0"]) * (mn / cnt[v])
 
 
-def check_update(step, i, cav, own, new, msg, glob_before, glob_after, success, fresh, dl, where):
-    """what one update must do to the factor's own message / the global approximation.
-    Returns (message, failing variables)"""
+def check_update(step, i, cav, own, new, msg, glob_before, glob_after, success, succ_in, fresh, dl, where):
+    """what one update must do to the factor's own message / the global approximation: the new
+    message is new/cavity (damped by delta) whenever that is a proper distribution (precision > 0),
+    otherwise the previous message is kept; success is reported iff every variable was updated.
+    Independent of the implementation's own status.  Returns (message, tags of failing variables)"""
     mag = magnitude(cav, own, new, msg, glob_after)
-    if not success:
-        return None, []
     bad = []
     first = None
+    all_ok = True
+    kind = step["delta"]["t"]
     for v in new:
         d = dl(v)
+        tag = ("delta", kind, d, v)
         c = cav.get(v, (0.0, 0.0))
         if d >= 1:
             exp = (new[v][0] - c[0], new[v][1] - c[1])
         else:
             l = own.get(v, (0.0, 0.0))
             exp = (d * (new[v][0] - c[0]) + (1 - d) * l[0], d * (new[v][1] - c[1]) + (1 - d) * l[1])
+        proper = exp[1] < 0
+        all_ok = all_ok and proper
+        if not proper:
+            if v in own and (v not in msg or not near(msg[v], own[v], mag)):
+                bad.append(tag)
+                first = first or "%s: improper projection of variable %d did not keep the previous message" % (where, v)
+            continue
         if v not in msg or not near(msg[v], exp, mag):
-            bad.append(v)
+            bad.append(tag)
             first = first or "%s: new message of variable %d is not new/cavity (delta %s)" % (where, v, d)
             continue
         if fresh and v in own:
             if d >= 1 and not near(glob_after[v], new[v], mag):
-                bad.append(v)
+                bad.append(tag)
                 first = first or "%s: after a full update the global approximation of variable %d is not the fitted distribution" % (where, v)
             if d < 1 and v in glob_before:
                 gb = glob_before[v]
                 expg = (d * new[v][0] + (1 - d) * gb[0], d * new[v][1] + (1 - d) * gb[1])
                 if not near(glob_after[v], expg, mag):
-                    bad.append(v)
+                    bad.append(tag)
                     first = first or "%s: damped update of variable %d does not interpolate the global approximation" % (where, v)
+    if set(msg) != set(new):
+        bad.append(("keys",))
+        first = first or "%s: updated factor has variables %s, the fitted distribution %s" % (where, sorted(msg), sorted(new))
+    if success != (succ_in and all_ok) and not bad:
+        bad.append(("status",))
+        first = first or "%s: status.success is %s but %s" % (where, success, "every projection was proper" if all_ok else "a projection was improper")
     return first, bad
 
 
@@ -557,9 +573,9 @@ def oracle_raw(c, r):
         new = {v: fnat(unhex(mu), unhex(sg)) for v, mu, sg in s["new"]}
         fresh = src is state or src == state
         gb = {v: fsum(state, v) for v in {v for mm in state for v in mm}}
-        m, bad = check_update(s, s["f"], cav, own, new, msg, gb, glob, o["success"], fresh, eff_delta(s, state), where)
+        m, bad = check_update(s, s["f"], cav, own, new, msg, gb, glob, o["success"], True, fresh, eff_delta(s, state), where)
         if m:
-            fails.append((m, [(s, v) for v in bad]))
+            fails.append((m, bad))
         state = after
     fin = [dmap(m) for m in r["final"]]
     if fin != state:
@@ -663,14 +679,10 @@ def oracle_run(c, r, run, nf, state0, parallel, where0):
         step = {"delta": run["delta"]}
         fresh = (not parallel) or src == state
         gb = {v: fsum(state, v) for v in {v for mm in state for v in mm}}
-        # the status that reaches the history has success = optimiser success and projection valid;
-        # the update itself is checked whenever the projection was valid, i.e. observed success or failed optimiser
-        proj_ok = e["success"] or not succ_in
-        if oc["t"] == "fit" and proj_ok and succ_in:
-            m, bad = check_update(step, i, cav, own, new, dmap(e["msg"]), gb, glob, True, fresh, eff_delta(step, state), where)
-            if m:
-                fails.append((m, [(step, v) for v in bad]))
-                dyn_bad += bad
+        m, bad = check_update(step, i, cav, own, new, dmap(e["msg"]), gb, glob, e["success"], succ_in, fresh,
+                              eff_delta(step, state), where)
+        if m:
+            fails.append((m, bad))
         state = after
     fin = [dmap(m) for m in r["final"]]
     if fin != state:
@@ -786,10 +798,10 @@ def classify(c, tagged):
                 return []
         elif t[0] == "latest_result":
             labels.add("latest-result-after-two-successes")
-        elif isinstance(t[0], dict):
-            step, v = t
-            if step["delta"]["t"] == "dynamic":
-                labels.add("dynamic-updater-delta-one")
+        elif t[0] == "delta":
+            # per-variable damping (a MeanField of deltas, as DynamicUpdater passes) with delta exactly 1
+            if t[1] in ("dynamic", "pervar") and t[2] == 1.0:
+                labels.add("per-variable-delta-one")
             else:
                 return []
         else:
